@@ -24,13 +24,18 @@ def s_check(plan, level="model_checking", dq=150, dt=900, opts=None, rule=RULE_S
 
 
 CHECKS = {
-    "C01": s_check("c01"),
+    "C01": s_check("c01", opts={"quick": {"isa_n": 12}}),
     "C02": s_check("c02"),
-    "C03": s_check("c03"),
+    "C03": s_check("c03", opts={"quick": {"isa_n": 10}}),
     "C04": s_check("c04"),
     "C05": s_check("c05", extra_runs=[{"name": "c05-nosse", "plan": "c05", "srcs": S, "san": "asan", "nosse": True}]),
     "C06": s_check("c06"),
     "C07": s_check("c07"),
     "C08": s_check("c08"),
-    "C19": s_check("c19"),
+    "C19": {"runs": [
+        {"name": "c19rt", "plan": "c19rt", "srcs": S, "san": "asan", "opts": {"quick": {"ex_n": 10, "st_lens": 2}}},
+        {"name": "c19rc", "plan": "c19rc", "srcs": S, "san": "asan", "opts": {"quick": {"ex_n": 8, "st_lens": 1, "ex_lens": 2, "max_n": 16}}},
+        {"name": "c19sc", "plan": "c19sc", "srcs": S, "san": "asan", "opts": {"quick": {"all_n": 10}}},
+        {"name": "c19fn", "plan": "c19fn", "srcs": S, "san": "asan", "opts": {"quick": {"ex_n": 8}}},
+    ], "level": "model_checking", "deadline": {"quick": 240, "thorough": 1500}, "rule": RULE_S, "assumptions": ASSUME_S},
 }
